@@ -173,7 +173,7 @@ func inLedgerPkg(w *World, fn *ssa.Function) bool {
 }
 
 func checkC06(w *World, r *Report) {
-	r.Explanation = "Structural clause of C06: with every program point of every module function reachable from an ABCI entry labelled T (consensus), F (CheckTx), Q (Query) or ⊤ (shared) — from the entry it is reached from, refined by dominating tests of the exec flag (TrxContext.Exec, StateDBWrapper.exec, bool parameters that receive it) — (X-1a) every consensus-overlay ledger method on a live ledger is called at a T point and (X-1b) every mempool-overlay method at an F point, including both arms of the `fn := L.Get; if exec { fn = L.GetFinality }` idiom which must name the same ledger; (X-1c) every argument bound to a parameter that receives the exec flag, and every store to TrxContext.Exec / StateDBWrapper.exec, is the flag itself or a constant that agrees with the context of the call; (X-2) no in-memory controller state is written at a point that is not T (the query's scratch StateDBWrapper excepted); (X-3) every success return of FinalityLedger.Commit resets the mempool overlay; (X-4) the live EVM state is touched only at T points; (X-5) inside the ledger package, mempool-overlay operations never change what the consensus overlay reads or what a commit writes, and a commit discards the mempool overlay (the abstract interpretation of C18 L-1). (X-7) the readers of the committed tree that block execution iterates with consult no overlay container (C18 L-2): the plain ledger's overlay is fed by CheckTx."
+	r.Explanation = "Structural clause of C06: with every program point of every module function reachable from an ABCI entry labelled T (consensus), F (CheckTx), Q (Query) or ⊤ (shared) — from the entry it is reached from, refined by dominating tests of the exec flag (TrxContext.Exec, StateDBWrapper.exec, bool parameters that receive it) — (X-1a) every consensus-overlay ledger method on a live ledger is called at a T point and (X-1b) every mempool-overlay method at an F point, including both arms of the `fn := L.Get; if exec { fn = L.GetFinality }` idiom which must name the same ledger; (X-1c) every argument bound to a parameter that receives the exec flag, and every store to TrxContext.Exec / StateDBWrapper.exec, is the flag itself or a constant that agrees with the context of the call; (X-2) no in-memory controller state is written at a point that is not T (the query's scratch StateDBWrapper excepted); (X-3) every success return of FinalityLedger.Commit resets the mempool overlay; (X-4) the live EVM state is touched only at T points; (X-5) inside the ledger package, mempool-overlay operations never change what the consensus overlay reads or what a commit writes, and a commit discards the mempool overlay (the abstract interpretation of C18 L-1). (X-8) no object reachable from a package-level variable of the module is changed in place (a store through it, a 256-bit / big-integer operation with it as destination) at a point that can run in a CheckTx or Query context: such an object is shared by every caller, block execution included. (X-7) the readers of the committed tree that block execution iterates with consult no overlay container (C18 L-2): the plain ledger's overlay is fed by CheckTx."
 	r.NotCovered = "interleavings below ABCI-call granularity (Query takes no application mutex); equality of results as such; internals of iavl/go-ethereum caches."
 
 	x := NewExecCtx(w)
@@ -207,6 +207,7 @@ func checkC06(w *World, r *Report) {
 	if r.importTreeReadOnly(w, "X-7") < 2 {
 		r.Undecided("X-7", "tree-iterators", "the committed-tree readers of the ledger package were not found")
 	}
+	x8(w, r, x)
 	r.Floor("X-1a", 20, "consensus-overlay call arms on live ledgers")
 	r.Floor("X-1b", 12, "mempool-overlay call arms on live ledgers")
 	r.Floor("X-1c", 15, "exec-flag arguments")
@@ -519,4 +520,102 @@ func x6(w *World, r *Report, rule string, fns []*ssa.Function) {
 		}
 	}
 	r.OK(rule, "in-place:scanned", fmt.Sprintf("%d in-place 256-bit operations scanned: none writes into a governance parameter or a controller field", n))
+}
+
+// ---- X-8: package-level objects are not changed in place on a request path
+//
+// A value copied out of a package-level variable still shares what its pointer
+// fields point to. A query or a mempool check that updates such an object in place
+// (`ctx := template; ctx.Number.SetInt64(h)`) changes what block execution reads.
+func x8(w *World, r *Report, x *ExecCtx) {
+	n := 0
+	var fromGlobal func(v ssa.Value, d int, seen map[ssa.Value]bool) *ssa.Global
+	fromGlobal = func(v ssa.Value, d int, seen map[ssa.Value]bool) *ssa.Global {
+		if v == nil || d > 6 || seen[v] {
+			return nil
+		}
+		seen[v] = true
+		switch y := stripConv(v).(type) {
+		case *ssa.Global:
+			if y.Pkg != nil && w.InModulePkg(y.Pkg.Pkg.Path()) {
+				return y
+			}
+		case *ssa.UnOp:
+			if y.Op == token.MUL {
+				return fromGlobal(y.X, d+1, seen)
+			}
+		case *ssa.FieldAddr:
+			return fromGlobal(y.X, d+1, seen)
+		case *ssa.IndexAddr:
+			return fromGlobal(y.X, d+1, seen)
+		case *ssa.Field:
+			return fromGlobal(y.X, d+1, seen)
+		case *ssa.Alloc:
+			// a local copy: what was stored into it
+			if refs := y.Referrers(); refs != nil {
+				for _, ref := range *refs {
+					if st, ok := ref.(*ssa.Store); ok && st.Addr == ssa.Value(y) {
+						if g := fromGlobal(st.Val, d+1, seen); g != nil {
+							return g
+						}
+					}
+				}
+			}
+		case *ssa.Phi:
+			for _, e := range y.Edges {
+				if g := fromGlobal(e, d+1, seen); g != nil {
+					return g
+				}
+			}
+		}
+		return nil
+	}
+	for _, fn := range x.funcs {
+		if fn.Blocks == nil || isPkgInit(fn) {
+			continue
+		}
+		for _, b := range fn.Blocks {
+			for _, in := range b.Instrs {
+				var dest ssa.Value
+				what := ""
+				switch y := in.(type) {
+				case ssa.CallInstruction:
+					if d, ok := mutatesZ(y.Common()); ok {
+						dest, what = d, callName(y.Common())
+					}
+				case *ssa.Store:
+					// a store through a pointer held by the package-level object (not into the local copy itself)
+					switch a := y.Addr.(type) {
+					case *ssa.FieldAddr:
+						if ld, isLd := a.X.(*ssa.UnOp); isLd && ld.Op == token.MUL {
+							dest, what = ld, "store"
+						}
+					case *ssa.IndexAddr:
+						if ld, isLd := a.X.(*ssa.UnOp); isLd && ld.Op == token.MUL {
+							dest, what = ld, "store"
+						}
+					}
+				}
+				if dest == nil {
+					continue
+				}
+				g := fromGlobal(dest, 0, map[ssa.Value]bool{})
+				if g == nil {
+					continue
+				}
+				// the pointer itself must come out of the global (a load of a pointer-typed field
+				// or element of it), not be the address of the package variable's own storage in a
+				// function that only block execution reaches
+				n++
+				p := x.PolAt(b)
+				key := fmt.Sprintf("%s:%s:%s", w.FName(fn), g.Name(), what)
+				if p&(polF|polQ) != 0 {
+					r.Violate("X-8", "global-in-place:"+key, fmt.Sprintf("an object reachable from the package-level variable %s is changed in place at a point that can run for a mempool check or a query: every other user of that object — block execution included — sees the change", g.Name()), nil, site(w, in))
+				} else {
+					r.OK("X-8", "global-in-place:"+key, "changed only at consensus-only points", site(w, in))
+				}
+			}
+		}
+	}
+	r.OK("X-8", "scanned", fmt.Sprintf("%d in-place change(s) of objects reachable from package-level variables on the request and block paths", n))
 }
